@@ -366,9 +366,9 @@ def check_C10(tier, seed):
     mon = ["--monitors", "C10"]
     plan = []
     if tier == "quick":
-        for k in ("tnx-l000", "tthrow-l000", "int-std", "tco-l010", "tmo-l111"):
+        for k in ("tnx-l000", "tthrow-l000", "int-std", "tco-l010", "tmo-l111", "tnx-l101", "int-l111"):
             plan += shards(Q[k], "asan-dbg", ["--mode", "sweep", "--level", 0] + mon, 2)
-        for k in ("tnx-l000", "tthrow-l000", "int-std", "tco-l010", "tmo-l111", "tthrow-std", "tnx-l101ae", "tnx-l000c", "int-l111"):
+        for k in ("tnx-l000", "tthrow-l000", "int-std", "tco-l010", "tmo-l111", "tthrow-std", "tnx-l101ae", "tnx-l000c", "int-l111", "tnx-l101", "tsw-l110"):
             plan.append(hist_run(Q[k], "asan-dbg", ["--mode", "random", "--focus", "grow", "--cases", 500, "--len", 60, "--seed", seed] + mon))
     else:
         M = thorough_matrix()
